@@ -23,6 +23,7 @@ import (
 	"github.com/inbucket/inbucket/v3/pkg/extension"
 	"github.com/inbucket/inbucket/v3/pkg/extension/event"
 	"github.com/inbucket/inbucket/v3/pkg/message"
+	"github.com/inbucket/inbucket/v3/pkg/policy"
 	"github.com/inbucket/inbucket/v3/pkg/storage"
 	"github.com/inbucket/inbucket/v3/pkg/storage/file"
 	"github.com/inbucket/inbucket/v3/pkg/storage/mem"
@@ -44,7 +45,8 @@ type storeBehaviour struct {
 	Cap    int       `json:"cap"`
 	MaxKB  int       `json:"maxkb"`
 	Names  []string  `json:"names"`
-	Events bool      `json:"events"` // record after-events
+	Events bool      `json:"events"` // record after-events (C16); deliveries then go through message.StoreManager
+	HoldMS int       `json:"hold_ms"` // every listener invocation takes this long (exposes overlapping dispatch)
 	Ops    []storeOp `json:"ops"`
 }
 
@@ -67,24 +69,36 @@ func errClass(err error) string {
 }
 
 type evRec struct {
-	mu  sync.Mutex
-	evs []tr.Ev
+	mu   sync.Mutex
+	seq  int64
+	evs  []tr.Ev
+	hold time.Duration
 }
 
-func (r *evRec) add(kind string, m event.MessageMetadata) {
+// invoke is the body of the after-event listeners: entry and exit are stamped from one counter
+// taken under one mutex, so "invocation A finished before invocation B started" is ex(A) < en(B).
+func (r *evRec) invoke(kind string, m event.MessageMetadata) {
 	r.mu.Lock()
-	r.evs = append(r.evs, tr.Ev{"k": kind, "mb": m.Mailbox, "id": m.ID})
+	r.seq++
+	en := r.seq
+	r.mu.Unlock()
+	if r.hold > 0 {
+		time.Sleep(r.hold)
+	}
+	r.mu.Lock()
+	r.seq++
+	r.evs = append(r.evs, tr.Ev{"k": kind, "mb": m.Mailbox, "id": m.ID, "en": en, "ex": r.seq})
 	r.mu.Unlock()
 }
 
-// drain waits until no event has arrived for quiet, then returns them.
+// drain waits until no invocation has started or finished for quiet, then returns the finished ones.
 func (r *evRec) drain(quiet time.Duration) []tr.Ev {
-	last := -1
+	last := int64(-1)
 	for {
 		r.mu.Lock()
-		n := len(r.evs)
+		n := r.seq
 		r.mu.Unlock()
-		if n == last {
+		if n == last && n%2 == 0 {
 			break
 		}
 		last = n
@@ -153,10 +167,10 @@ func mkMeta(rng *rand.Rand, class int, mb string) event.MessageMetadata {
 func runStoreBehaviour(w *tr.Writer, b storeBehaviour, seed int64, scratch string) {
 	rng := rand.New(rand.NewSource(seed))
 	host := extension.NewHost()
-	rec := &evRec{}
+	rec := &evRec{hold: time.Duration(b.HoldMS) * time.Millisecond}
 	if b.Events {
-		host.Events.AfterMessageDeleted.AddListener("verif", func(m event.MessageMetadata) { rec.add("deleted", m) })
-		host.Events.AfterMessageStored.AddListener("verif", func(m event.MessageMetadata) { rec.add("stored", m) })
+		host.Events.AfterMessageDeleted.AddListener("verif", func(m event.MessageMetadata) { rec.invoke("deleted", m) })
+		host.Events.AfterMessageStored.AddListener("verif", func(m event.MessageMetadata) { rec.invoke("stored", m) })
 	}
 	dir := filepath.Join(scratch, "store-"+b.ID)
 	if b.Store == "file" {
@@ -200,6 +214,27 @@ func runStoreBehaviour(w *tr.Writer, b storeBehaviour, seed int64, scratch strin
 		case "add":
 			meta := mkMeta(rng, op.Meta, name)
 			body := mkBody(rng, op.Size)
+			if b.Events {
+				// through the manager, which emits the stored event; id and metadata are read back
+				mgr := &message.StoreManager{AddrPolicy: &policy.Addressing{Config: &config.Root{MailboxNaming: config.LocalNaming, SMTP: config.SMTP{DefaultAccept: true, DefaultStore: true}}}, Store: st, ExtHost: host}
+				rcpt, rerr := mgr.AddrPolicy.NewRecipient(name + "@example.com")
+				if rerr != nil {
+					ev["r"] = "harness-error: " + rerr.Error()
+					break
+				}
+				content := append([]byte("Subject: "+meta.Subject+"\r\n\r\n"), body...)
+				err := mgr.Deliver(&policy.Origin{Address: *meta.From}, []*policy.Recipient{rcpt}, "Received: from verif ([127.0.0.1]) by verif\r\n", content)
+				ev["r"] = errClass(err)
+				ms, _ := st.GetMessages(name)
+				if err == nil && len(ms) > 0 {
+					pm := tr.ProjectMsg(ms[len(ms)-1])
+					ev["id"] = pm.ID
+					ev["size"] = pm.Size
+					ev["meta"] = pm.Meta
+					issued[op.Mb] = append(issued[op.Mb], pm.ID)
+				}
+				break
+			}
 			d := &message.Delivery{Meta: meta, Reader: bytes.NewReader(body)}
 			id, err := st.AddMessage(d)
 			ev["r"] = errClass(err)
@@ -298,9 +333,22 @@ func runStoreBehaviour(w *tr.Writer, b storeBehaviour, seed int64, scratch strin
 			ev["lists"] = lists
 		case "scan":
 			// retention period of 500 h: class-0 messages (1000 h old) are expired
-			rs := storage.NewRetentionScanner(config.Storage{RetentionPeriod: time.Since(baseTime) + 500*time.Hour, RetentionSleep: 0}, st)
+			period := time.Since(baseTime) + 500*time.Hour
+			dates := append([]string{}, oldDates...)
+			if b.Events {
+				// deliveries through the manager are dated "now": expire everything that is in the store
+				period = time.Nanosecond
+				before, _ := tr.Snapshot(st, b.Names)
+				for _, bx := range before {
+					for _, m := range bx.Msgs {
+						dates = append(dates, m.Meta.Date)
+					}
+				}
+				time.Sleep(time.Millisecond)
+			}
+			rs := storage.NewRetentionScanner(config.Storage{RetentionPeriod: period, RetentionSleep: 0}, st)
 			ev["r"] = errClass(rs.DoScan(context.Background()))
-			ev["olddates"] = append([]string{}, oldDates...)
+			ev["olddates"] = dates
 		case "reopen":
 			// op.ID carries the cap of the reopened store
 			curCap = op.ID
@@ -318,10 +366,42 @@ func runStoreBehaviour(w *tr.Writer, b storeBehaviour, seed int64, scratch strin
 			ev["r"] = "harness-error: unknown op"
 		}
 		snapInto(ev)
-		if b.Events {
-			ev["evs"] = rec.drain(2 * time.Millisecond)
-		}
 		w.Emit(ev)
+	}
+	if b.Events {
+		// flush: a sentinel through each broker (per-listener FIFO puts it behind everything emitted so far);
+		// wait for both, then for quiescence
+		rec.mu.Lock()
+		before := len(rec.evs)
+		rec.mu.Unlock()
+		_ = before
+		host.Events.AfterMessageStored.Emit(&event.MessageMetadata{Mailbox: "verif-sentinel", ID: "s"})
+		host.Events.AfterMessageDeleted.Emit(&event.MessageMetadata{Mailbox: "verif-sentinel", ID: "d"})
+		deadline := time.Now().Add(3 * time.Second)
+		for time.Now().Before(deadline) {
+			rec.mu.Lock()
+			n := 0
+			for _, e := range rec.evs {
+				if e["mb"] == "verif-sentinel" {
+					n++
+				}
+			}
+			rec.mu.Unlock()
+			if n >= 2 {
+				break
+			}
+			time.Sleep(200 * time.Microsecond)
+		}
+		all := rec.drain(5 * time.Millisecond)
+		evs := []tr.Ev{}
+		for _, e := range all {
+			if e["mb"] != "verif-sentinel" {
+				evs = append(evs, e)
+			}
+		}
+		end := tr.Ev{"a": "events", "t": b.ID, "evs": evs}
+		snapInto(end)
+		w.Emit(end)
 	}
 }
 
